@@ -35,6 +35,8 @@
       equals the engine's evaluation on the one-second grid (agg over the series of f_over_time, resp. f_over_time over the
       window of the group's one-second aggregates) for sum∘sum, min∘min, max∘max; count∘count and avg∘avg are not pooled
       values by definition and are not pushed down exactly.
+    * max_is_definition / min_is_definition over the extended reals (−∞ | finite | +∞ are points, missing is separate);
+      max_sentinel_violates (seeded/C27-r5-1), infinite_points_old_violates (before fixes/C27-infinite-points.diff).
     * subquery_is_window_of_results (evalChain_snoc): `f_over_time((X)[r:])` is f over the window of X's results with the
       subquery's own range; early_range_violates: the seeded/C27-r3-2 order (range stored before the operand is evaluated,
       variant evalChainEarlyRange) contradicts it.
@@ -1841,6 +1843,209 @@ example :
     (∀ m ∈ [0, 1], ∀ k : Nat, k < 3 → (bucketRows exStore [m] (99 + (k : Int)) (99 + (k : Int) + 1)).length ≤ 1) ∧
     groupPoint exStore ts .sum 2 [0, 1] 1 = some 16 ∧ groupPoint exStore ts .max 2 [0, 1] 1 = some 10 ∧
     (mergeRows (bucketRows exStore [0] 100 102)).map (rowValue .avg 2 2) = some 3 := by decide +kernel
+
+
+/-! ### infinite points are points: max / min over the extended reals -/
+
+theorem ERat.lt_irrefl (a : ERat) : ERat.lt a a = false := by
+  cases a <;> simp [ERat.lt]
+
+theorem ERat.lt_trans {a b c : ERat} (h1 : ERat.lt a b = true) (h2 : ERat.lt b c = true) : ERat.lt a c = true := by
+  cases a <;> cases b <;> cases c <;> simp [ERat.lt] at * <;> linarith
+
+theorem ERat.lt_asymm {a b : ERat} (h : ERat.lt a b = true) : ERat.lt b a = false := by
+  cases a <;> cases b <;> simp [ERat.lt] at * <;> linarith
+
+theorem ERat.le_of_lt {a b : ERat} (h : ERat.lt a b = true) : ERat.le a b = true := by
+  simp [ERat.le, ERat.lt_asymm h]
+
+theorem ERat.le_refl (a : ERat) : ERat.le a a = true := by simp [ERat.le, ERat.lt_irrefl]
+
+theorem ERat.le_trans {a b c : ERat} (h1 : ERat.le a b = true) (h2 : ERat.le b c = true) : ERat.le a c = true := by
+  cases a <;> cases b <;> cases c <;> simp [ERat.le, ERat.lt] at * <;> linarith
+
+theorem ERat.le_of_not_lt {a b : ERat} (h : ERat.lt a b = false) : ERat.le b a = true := by simp [ERat.le, h]
+
+theorem epresent_cons_none (c : List EVal) : epresent (none :: c) = epresent c := by simp [epresent]
+theorem epresent_cons_some (x : ERat) (c : List EVal) : epresent (some x :: c) = x :: epresent c := by simp [epresent]
+
+/-- the accumulator of funcMax's loop: a present point that bounds every point seen so far -/
+theorem foldl_eMaxStep (c : List EVal) (acc : EVal) :
+    (acc = none → epresent c = [] → c.foldl eMaxStep acc = none) ∧
+    ((acc ≠ none ∨ epresent c ≠ []) → ∃ m, c.foldl eMaxStep acc = some m ∧ (acc = some m ∨ m ∈ epresent c) ∧
+        (∀ r, acc = some r → ERat.le r m = true) ∧ ∀ x ∈ epresent c, ERat.le x m = true) := by
+  induction c generalizing acc with
+  | nil =>
+    refine ⟨fun h _ => by simp [h], ?_⟩
+    intro h
+    cases acc with
+    | none => simp [epresent] at h
+    | some r => exact ⟨r, rfl, Or.inl rfl, fun r' hr => by cases hr; exact ERat.le_refl r, by simp [epresent]⟩
+  | cons v c ih =>
+    cases v with
+    | none =>
+      simp only [List.foldl_cons, epresent_cons_none]
+      have e : eMaxStep acc none = acc := by cases acc <;> rfl
+      rw [e]; exact ih acc
+    | some x =>
+      simp only [List.foldl_cons, epresent_cons_some]
+      refine ⟨fun _ h => by simp at h, fun _ => ?_⟩
+      cases acc with
+      | none =>
+        have e : eMaxStep none (some x) = some x := rfl
+        rw [e]
+        obtain ⟨m, hm, hmem, hb, hall⟩ := (ih (some x)).2 (Or.inl (by simp))
+        refine ⟨m, hm, Or.inr ?_, by simp, ?_⟩
+        · rcases hmem with h | h
+          · cases h; exact List.mem_cons_self
+          · exact List.mem_cons_of_mem _ h
+        · intro y hy
+          rcases List.mem_cons.mp hy with rfl | hy
+          · exact hb _ rfl
+          · exact hall y hy
+      | some r =>
+        by_cases hlt : ERat.lt r x = true
+        · have e : eMaxStep (some r) (some x) = some x := by simp [eMaxStep, hlt]
+          rw [e]
+          obtain ⟨m, hm, hmem, hb, hall⟩ := (ih (some x)).2 (Or.inl (by simp))
+          have hxm := hb x rfl
+          refine ⟨m, hm, Or.inr ?_, ?_, ?_⟩
+          · rcases hmem with h | h
+            · cases h; exact List.mem_cons_self
+            · exact List.mem_cons_of_mem _ h
+          · intro r' hr'; cases hr'
+            exact ERat.le_trans (ERat.le_of_lt hlt) hxm
+          · intro y hy
+            rcases List.mem_cons.mp hy with rfl | hy
+            · exact hxm
+            · exact hall y hy
+        · have hlt' : ERat.lt r x = false := by simpa using hlt
+          have e : eMaxStep (some r) (some x) = some r := by simp [eMaxStep, hlt']
+          rw [e]
+          obtain ⟨m, hm, hmem, hb, hall⟩ := (ih (some r)).2 (Or.inl (by simp))
+          have hrm := hb r rfl
+          refine ⟨m, hm, ?_, fun r' hr' => by cases hr'; exact hrm, ?_⟩
+          · rcases hmem with h | h
+            · exact Or.inl h
+            · exact Or.inr (List.mem_cons_of_mem _ h)
+          · intro y hy
+            rcases List.mem_cons.mp hy with rfl | hy
+            · exact ERat.le_trans (ERat.le_of_not_lt hlt') hrm
+            · exact hall y hy
+
+/-- **max_is_definition** (extended reals: −∞ | finite | +∞ are points, missing is separate) — `max` over a column is
+    missing iff no point is present; otherwise it is a present point that bounds every present point from above. In
+    particular a column whose present points are all −∞ has maximum −∞, not "no point". -/
+theorem max_is_definition (col : List EVal) :
+    (epresent col = [] → eMax col = none) ∧
+    (epresent col ≠ [] → ∃ m, eMax col = some m ∧ m ∈ epresent col ∧ ∀ x ∈ epresent col, ERat.le x m = true) := by
+  unfold eMax
+  obtain ⟨h1, h2⟩ := foldl_eMaxStep col none
+  refine ⟨fun h => h1 rfl h, fun h => ?_⟩
+  obtain ⟨m, hm, hmem, _, hall⟩ := h2 (Or.inr h)
+  refine ⟨m, hm, ?_, hall⟩
+  rcases hmem with h' | h'
+  · cases h'
+  · exact h'
+
+/-- the accumulator of funcMin's loop: a present point that bounds every point seen so far from below -/
+theorem foldl_eMinStep (c : List EVal) (acc : EVal) :
+    (acc = none → epresent c = [] → c.foldl eMinStep acc = none) ∧
+    ((acc ≠ none ∨ epresent c ≠ []) → ∃ m, c.foldl eMinStep acc = some m ∧ (acc = some m ∨ m ∈ epresent c) ∧
+        (∀ r, acc = some r → ERat.le m r = true) ∧ ∀ x ∈ epresent c, ERat.le m x = true) := by
+  induction c generalizing acc with
+  | nil =>
+    refine ⟨fun h _ => by simp [h], ?_⟩
+    intro h
+    cases acc with
+    | none => simp [epresent] at h
+    | some r => exact ⟨r, rfl, Or.inl rfl, fun r' hr => by cases hr; exact ERat.le_refl r, by simp [epresent]⟩
+  | cons v c ih =>
+    cases v with
+    | none =>
+      simp only [List.foldl_cons, epresent_cons_none]
+      have e : eMinStep acc none = acc := by cases acc <;> rfl
+      rw [e]; exact ih acc
+    | some x =>
+      simp only [List.foldl_cons, epresent_cons_some]
+      refine ⟨fun _ h => by simp at h, fun _ => ?_⟩
+      cases acc with
+      | none =>
+        have e : eMinStep none (some x) = some x := rfl
+        rw [e]
+        obtain ⟨m, hm, hmem, hb, hall⟩ := (ih (some x)).2 (Or.inl (by simp))
+        refine ⟨m, hm, Or.inr ?_, by simp, ?_⟩
+        · rcases hmem with h | h
+          · cases h; exact List.mem_cons_self
+          · exact List.mem_cons_of_mem _ h
+        · intro y hy
+          rcases List.mem_cons.mp hy with rfl | hy
+          · exact hb _ rfl
+          · exact hall y hy
+      | some r =>
+        by_cases hlt : ERat.lt x r = true
+        · have e : eMinStep (some r) (some x) = some x := by simp [eMinStep, hlt]
+          rw [e]
+          obtain ⟨m, hm, hmem, hb, hall⟩ := (ih (some x)).2 (Or.inl (by simp))
+          have hxm := hb x rfl
+          refine ⟨m, hm, Or.inr ?_, ?_, ?_⟩
+          · rcases hmem with h | h
+            · cases h; exact List.mem_cons_self
+            · exact List.mem_cons_of_mem _ h
+          · intro r' hr'; cases hr'
+            exact ERat.le_trans hxm (ERat.le_of_lt hlt)
+          · intro y hy
+            rcases List.mem_cons.mp hy with rfl | hy
+            · exact hxm
+            · exact hall y hy
+        · have hlt' : ERat.lt x r = false := by simpa using hlt
+          have e : eMinStep (some r) (some x) = some r := by simp [eMinStep, hlt']
+          rw [e]
+          obtain ⟨m, hm, hmem, hb, hall⟩ := (ih (some r)).2 (Or.inl (by simp))
+          have hrm := hb r rfl
+          refine ⟨m, hm, ?_, fun r' hr' => by cases hr'; exact hrm, ?_⟩
+          · rcases hmem with h | h
+            · exact Or.inl h
+            · exact Or.inr (List.mem_cons_of_mem _ h)
+          · intro y hy
+            rcases List.mem_cons.mp hy with rfl | hy
+            · exact ERat.le_trans hrm (ERat.le_of_not_lt hlt')
+            · exact hall y hy
+
+/-- **min_is_definition** — `min` over a column is
+    missing iff no point is present; otherwise it is a present point that bounds every present point from below. -/
+theorem min_is_definition (col : List EVal) :
+    (epresent col = [] → eMin col = none) ∧
+    (epresent col ≠ [] → ∃ m, eMin col = some m ∧ m ∈ epresent col ∧ ∀ x ∈ epresent col, ERat.le m x = true) := by
+  unfold eMin
+  obtain ⟨h1, h2⟩ := foldl_eMinStep col none
+  refine ⟨fun h => h1 rfl h, fun h => ?_⟩
+  obtain ⟨m, hm, hmem, _, hall⟩ := h2 (Or.inr h)
+  refine ⟨m, hm, ?_, hall⟩
+  rcases hmem with h' | h'
+  · cases h'
+  · exact h'
+
+/-- the seeded sentinel variant (seeded/C27-r5-1: −∞ stands for "nothing seen yet") contradicts it: the present points of
+    the column are all −∞, `min` returns −∞, the real `max` returns −∞, the sentinel `max` returns "no point" -/
+theorem max_sentinel_violates :
+    epresent [some ERat.ninf, none, some ERat.ninf] ≠ [] ∧ eMin [some .ninf, none, some .ninf] = some .ninf ∧
+    eMax [some .ninf, none, some .ninf] = some .ninf ∧ eMaxSentinel [some .ninf, none, some .ninf] = none ∧
+    eMaxSentinel [some (.fin 3), none, some .ninf] = some (.fin 3) := by decide +kernel
+
+/-- before fixes/C27-infinite-points.diff: min_over_time of points that are all +∞ is MaxFloat64, the quantile of {5, +∞}
+    at q = 0 and of {+∞} is "no point"; fixed: +∞, 5, +∞ -/
+theorem infinite_points_old_violates :
+    eMinOverTimeOld [some .pinf, some .pinf] = some (.fin maxFloat64) ∧ eMin [some .pinf, some .pinf] = some .pinf ∧
+    eMaxOverTimeOld [some .ninf] = some (.fin (-maxFloat64)) ∧ eMax [some .ninf] = some .ninf ∧
+    eQuantileOld 0 [some (.fin 5), some .pinf] = none ∧ eQuantile 0 [some (.fin 5), some .pinf] = some (.fin 5) ∧
+    eQuantileOld (1/2) [some .pinf] = none ∧ eQuantile (1/2) [some .pinf] = some .pinf := by decide +kernel
+
+/-- non-vacuity of max_is_definition and the other operators on a column mixing finite and infinite points -/
+example : eMax [some (.fin 2), none, some .pinf, some .ninf] = some .pinf ∧ eMin [some (.fin 2), none, some .ninf] = some .ninf ∧
+    eSum [some (.fin 2), some .pinf] = some .pinf ∧ eSum [some .ninf, some .pinf] = none ∧
+    eAvg [some (.fin 2), some (.fin 4), none] = some (.fin 3) ∧ eCount [some .pinf, none] = some (.fin 1) ∧
+    eQuantile (1/2) [some (.fin 1), some (.fin 3), some .pinf] = some (.fin 3) := by decide +kernel
 
 
 end SH.Props.C27
